@@ -6,6 +6,7 @@ CONSTANTS
   QueueMax = 2
   MaxTasks = 4
   MaxOps = 9
+  RetryExact = TRUE
   SyncTask = TRUE
   Dev = {"late-any-peer"}
 INIT Init
